@@ -533,4 +533,65 @@ def c12_6(c: Ctx) -> None:
                    + ('return a value that is not a handler return value' if got else 'silently omit a recorded, conforming handler result (and raise_if_none may fire although a value was returned)'))
 
 
+@ob('C12.7', 'SHAPE', 'raise_if_any raises the error of the first failing result in handler order: the failing results are an order-preserving selection of all results, and the raised value '
+    'is the error of its first element (evaluated on a two-error example)')
+def c12_7(c: Ctx) -> None:
+    from sa.absint import UNKNOWN as UNK, AbsInt, Obj, Rec
+
+    u = c.unit(MOD, 'BaseEvent.event_results_filtered')
+    fn = q.comp_view(u.node)
+    arms = [n for n in own_nodes(fn) if isinstance(n, ast.If) and any(isinstance(x, ast.Name) and x.id == 'raise_if_any' for x in ast.walk(n.test)) and any(isinstance(x, ast.Raise) for b in n.body for x in ast.walk(b))]
+    if len(arms) != 1:
+        c.fail(u, f'{len(arms)} raise_if_any arms', 'raise_if_any does not raise the recorded error')
+        return
+    arm = arms[0]
+    # statements of the function from the first binding of a results dict up to and including the arm, evaluated on: three results in handler order, the 2nd and 3rd failed
+    self_ = u.params()[0]
+    e2, e3 = Obj('ValueError', 'error-of-second-handler'), Obj('KeyError', 'error-of-third-handler')
+    results = {'h1': Rec(status='completed', result='ok', error=None), 'h2': Rec(status='error', result=None, error=e2), 'h3': Rec(status='error', result=None, error=e3)}
+    blk = q.block_of(arm) or []
+    idx = next((i for i, st in enumerate(blk) if st is arm), None)
+    if idx is None or blk is not fn.body:
+        raise AnalysisError('event_results_filtered: the raise_if_any arm is not a top-level statement of the function')
+    first = next((i for i, st in enumerate(blk) if isinstance(st, (ast.Assign, ast.AnnAssign)) and isinstance(st.value, (ast.DictComp, ast.Call, ast.Dict)) and f'{self_}.event_results' in U(st.value)), None)
+    if first is None or first > idx:
+        raise AnalysisError('event_results_filtered: no binding of the recorded results before the raise_if_any arm')
+    ai = AbsInt(program=c.prog, module=MOD)
+    orig_call, orig_ev = ai.call, ai.ev
+
+    def call(cn, env):
+        if isinstance(cn.func, ast.Name) and cn.func.id == 'isinstance' and len(cn.args) == 2:
+            v = ai.ev(cn.args[0], env)
+            if v is UNK:
+                return UNK
+            return isinstance(v, Obj) and v.cls in ('ValueError', 'KeyError') and 'Exception' in U(cn.args[1])
+        if isinstance(cn.func, ast.Name) and cn.func.id == 'dict' and len(cn.args) == 1 and not cn.keywords:
+            v = ai.ev(cn.args[0], env)
+            return dict(v) if type(v) is dict else UNK
+        return orig_call(cn, env)
+
+    def ev(e, env):
+        if isinstance(e, ast.DictComp) and len(e.generators) == 1:
+            proxy = ast.ListComp(elt=ast.Tuple(elts=[e.key, e.value], ctx=ast.Load()), generators=e.generators)
+            items = orig_ev(proxy, env)
+            if items is UNK or any(k is UNK for k, _ in items):
+                return UNK
+            return dict(items)
+        return orig_ev(e, env)
+
+    ai.call, ai.ev = call, ev  # type: ignore[method-assign]
+    env = {self_: Rec(event_results=results), 'raise_if_any': True, 'raise_if_none': False, 'include': UNK}
+    ai.run(blk[first:idx + 1], env)
+    vals = ai.raised_values
+    if not vals:
+        c.fail(u, 'with raise_if_any and two failed results nothing is raised', 'raise_if_any does not raise although handlers failed', node=arm)
+    elif any(v is e3 or v == e3 for v in vals):
+        c.fail(u, 'raise_if_any raises the error of a later failing handler, not of the first', 'with several failing handlers the accessor raises a different error than the one of the first failing handler in '
+               'handler order: callers that handle the documented first error see another one', node=arm)
+    elif any(v is e2 or v == e2 for v in vals):
+        c.ok(where(u, arm), 'on (ok, error, error) raise_if_any raises the error of the first failing handler')
+    else:
+        raise AnalysisError(f'event_results_filtered: the value raised under raise_if_any could not be evaluated ({len(vals)} raise statements reached, none decided)')
+
+
 OBLIGATIONS = ob.obs
